@@ -225,6 +225,16 @@ func runC15(col *Collector, tier string, seed int64) {
 	for _, h := range hand {
 		add(loadCase{desc: "hand-written", format: "yaml", text: h, tasks: []string{"t"}, pipes: []string{"p"}}, "degenerate")
 	}
+	// pipelines that include each other in a cycle, reached from entry pipelines whose names sort before, between and
+	// after the members of the cycle: drawing or running any of them must not recurse for ever
+	for _, names := range [][]string{{"all", "build", "check"}, {"zz", "build", "check"}, {"c", "b", "d"}, {"a0", "a2", "a1"}} {
+		e, x, y := names[0], names[1], names[2]
+		doc := fmt.Sprintf("tasks:\n  t: {command: [\"true\"]}\npipelines:\n  %s:\n    - task: t\n    - pipeline: %s\n      depends_on: [t]\n  %s:\n    - pipeline: %s\n  %s:\n    - task: t\n    - pipeline: %s\n", e, x, x, y, y, x)
+		add(loadCase{desc: "inclusion cycle behind an entry pipeline", format: "yaml", text: doc, tasks: []string{"t"}, pipes: []string{e, x, y}}, "inclusion-cycle")
+		// two entries, one before and one after the cycle
+		doc2 := doc + fmt.Sprintf("  %s:\n    - pipeline: %s\n  %s:\n    - pipeline: %s\n", "0first", y, "~last", e)
+		add(loadCase{desc: "inclusion cycle behind two entry pipelines", format: "yaml", text: doc2, tasks: []string{"t"}, pipes: []string{"0first", "~last", e, x, y}}, "inclusion-cycle")
+	}
 	// names and descriptions that are not what a listing is laid out for: non-ASCII of every width, very long, with
 	// tabs, format verbs and template syntax; described and undescribed tasks side by side
 	oddNames := []string{"сборка", "构建", "🚀🚀🚀", "é", strings.Repeat("long", 60), "tab\there", "%s%d%!", "{{ .Name }}", "a b", "-", "ﬁ", "e\u0301"}
